@@ -38,6 +38,7 @@ type Exec struct {
 	lazyDone    map[string]bool
 	inLazyInit  string
 	KnownIDs    map[string]bool
+	StubSets    map[string]bool
 }
 
 type OKind int
